@@ -147,13 +147,19 @@ def apply_unified_diff(diff_text: str, read) -> dict[str, str]:
     cur = None
     hunks: list[list[str]] = []
     files: list[tuple[str, list[list[str]]]] = []
+    new_files: set[str] = set()
+    prev_minus = ""
     for line in diff_text.splitlines():
+        if line.startswith("--- "):
+            prev_minus = line[4:].strip()
         if line.startswith("+++ "):
             path = line[4:].strip()
             path = path[2:] if path.startswith(("a/", "b/")) else path
             cur = path
             hunks = []
             files.append((cur, hunks))
+            if prev_minus == "/dev/null":
+                new_files.add(cur)
         elif line.startswith("@@") and cur is not None:
             hunks.append([])
         elif cur is not None and hunks and (line[:1] in (" ", "+", "-") or line == ""):
@@ -161,6 +167,9 @@ def apply_unified_diff(diff_text: str, read) -> dict[str, str]:
                 continue
             hunks[-1].append(line if line else " ")
     for path, hs in files:
+        if path in new_files:  # a file the change creates
+            out[path] = "\n".join(l[1:] for h in hs for l in h if l[:1] == "+") + "\n"
+            continue
         text = out.get(path) or read(path)
         lines = text.split("\n")
         for h in hs:
